@@ -4,6 +4,7 @@
 package wmptlib
 
 import (
+	"errors"
 	"sort"
 	"sync"
 
@@ -18,10 +19,11 @@ import (
 
 // MemStore implements storage.StorageAdapter: batch commit atomic, writes in program order.
 type MemStore struct {
-	M          map[string][]byte
-	Writes     int // atomic writes applied or dropped
-	CrashAfter int // <0 never; else writes with index >= CrashAfter are dropped
-	Log        []string
+	M           map[string][]byte
+	Writes      int // atomic writes applied or dropped
+	CrashAfter  int // <0 never; else writes with index >= CrashAfter are dropped
+	FailBatches int // the next FailBatches batch commits fail with ErrInjected (nothing is written)
+	Log         []string
 }
 
 func NewMemStore() *MemStore { return &MemStore{M: map[string][]byte{}, CrashAfter: -1} }
@@ -96,7 +98,14 @@ func (b *Batch) Delete(k []byte) error {
 	return nil
 }
 
+// ErrInjected is the error of an injected storage fault.
+var ErrInjected = errors.New("injected storage fault")
+
 func (b *Batch) Commit(bool) error {
+	if b.s.FailBatches > 0 {
+		b.s.FailBatches--
+		return ErrInjected
+	}
 	if !b.s.admit("batch") {
 		return nil
 	}
